@@ -89,6 +89,71 @@ Definition sql_rows (tis : list (string * tinfo)) (rows : list (string * row))
 
 (* ------------------------------------------------------------------ cases *)
 
+(* ------------------------------------------------------------------ a value-level cache in front of an encoder
+   (round 4).  The write path of OutputStream.write_row encodes every cell from its own value.  A cache that
+   looks encoded values up by KEY EQUALITY [keq] (functools.lru_cache, a dict: Python's == and hash) in front of
+   an encoder [enc], with any eviction policy, any contents left behind by earlier runs of the process:
+   [memo_run].  [py_eq]: Python's == on the modelled values (bool / int cross equality, aware datetimes compared
+   as instants; on Decimals only textual identity, a sub-relation of ==); compared with CPython on every run
+   (XPyEq). *)
+Definition days_from_civil (y m d : Z) : Z :=
+  let y1 := if m <=? 2 then y - 1 else y in
+  let era := y1 / 400 in
+  let yoe := y1 - era * 400 in
+  let mp := (m + 9) mod 12 in
+  let doy := (153 * mp + 2) / 5 + d - 1 in
+  let doe := yoe * 365 + yoe / 4 - yoe / 100 + doy in
+  era * 146097 + doe - 719468.
+
+Definition instant_us (y m d hh mi ss us off : Z) : Z :=
+  ((((days_from_civil y m d * 24 + hh) * 60 + mi - off) * 60) + ss) * 1000000 + us.
+
+Definition py_eq (a b : value) : bool :=
+  match a, b with
+  | VNull, VNull => true
+  | VBool x, VBool y => Bool.eqb x y
+  | VBool x, VInt z => z =? (if x then 1 else 0)
+  | VInt z, VBool x => z =? (if x then 1 else 0)
+  | VInt x, VInt y => x =? y
+  | VStr s, VStr t => text_eqb s t
+  | VDec s, VDec t => text_eqb s t
+  | VDate y m d, VDate y' m' d' => (y =? y') && (m =? m') && (d =? d')
+  | VDateTime y m d hh mi ss us None, VDateTime y' m' d' hh' mi' ss' us' None =>
+      (y =? y') && (m =? m') && (d =? d') && (hh =? hh') && (mi =? mi') && (ss =? ss') && (us =? us')
+  | VDateTime y m d hh mi ss us (Some o), VDateTime y' m' d' hh' mi' ss' us' (Some o') =>
+      instant_us y m d hh mi ss us o =? instant_us y' m' d' hh' mi' ss' us' o'
+  | _, _ => false
+  end.
+
+Section Memo.
+  Variable keq : value -> value -> bool.
+  Variable enc : value -> result cell.
+  Variable evict : list (value * result cell) -> list (value * result cell).
+
+  Definition mcache := list (value * result cell).
+
+  Fixpoint memo_find (v : value) (c : mcache) : option (result cell) :=
+    match c with
+    | [] => None
+    | (k, x) :: r => if keq k v then Some x else memo_find v r
+    end.
+
+  Definition memo_cell (c : mcache) (v : value) : result cell * mcache :=
+    match memo_find v c with
+    | Some x => (x, c)
+    | None => let x := enc v in (x, evict ((v, x) :: c))
+    end.
+
+  Fixpoint memo_run (c : mcache) (vs : list value) : list (result cell) * mcache :=
+    match vs with
+    | [] => ([], c)
+    | v :: r => let '(x, c1) := memo_cell c v in
+                let '(xs, c2) := memo_run c1 r in (x :: xs, c2)
+    end.
+
+  Definition cache_sound (c : mcache) : Prop := forall k x, In (k, x) c -> x = enc k.
+End Memo.
+
 Inductive xcase :=
 | XBase (c : case)
 (* the schema the parser hands to the outputs, compared with the columns of the artefacts *)
@@ -104,6 +169,8 @@ Inductive xcase :=
        (bytes : text) (exact : bool)
 (* the debug text, as bytes (the format cannot be decoded: compared only when it is byte-exact) *)
 | XTxt (rows : list (string * row)) (bytes : text)
+(* Python's == on two values, as CPython computes it *)
+| XPyEq (a b : value) (eq : bool)
 | XAll (l : list xcase).
 
 Definition check_csv (ti : tinfo) (raws : list row) (bytes : text) (exact : bool) : bool :=
@@ -169,5 +236,6 @@ Fixpoint check_xcase (c : xcase) : bool :=
   | XJson rows bytes exact => check_json rows bytes exact
   | XSql tis cols rows bytes exact => check_sql tis cols rows bytes exact
   | XTxt rows bytes => match txt_text rows with Ok t => text_eqb t bytes | Err _ => false end
+  | XPyEq a b e => Bool.eqb (py_eq a b) e
   | XAll l => forallb check_xcase l
   end.
